@@ -12,7 +12,12 @@ EPS64 = float(np.finfo(np.float64).eps)
 
 
 def f64(x):
-    return np.asarray(x, dtype=np.float64)
+    """float64 image of a real record (complex128 image of a complex one: the library's own fas2signal produces
+    records with a rounding-level imaginary part)."""
+    a = np.asarray(x)
+    if a.dtype.kind == 'c':
+        return a.astype(np.complex128)
+    return np.asarray(a, dtype=np.float64)
 
 
 def eps_of(*things):
@@ -20,9 +25,16 @@ def eps_of(*things):
     e = EPS64
     for t in things:
         dt = getattr(t, 'dtype', None)
-        if dt is not None and dt.kind == 'f':
+        if dt is not None and dt.kind in 'fc':
             e = max(e, float(np.finfo(dt).eps))
     return e
+
+
+def underflow_floor(eps, n=1):
+    """Absolute granularity of values held in the record's own floating dtype (gradual underflow): every one of n
+    roundings in the subnormal range is off by up to one smallest subnormal, whatever the magnitude of the operands."""
+    tiny = np.finfo(np.float32).smallest_subnormal if eps > 1e-10 else np.finfo(np.float64).smallest_subnormal
+    return 4.0 * float(tiny) * max(1, int(n))
 
 
 def increments(y, dt, rule):
@@ -40,8 +52,9 @@ def increments(y, dt, rule):
 
 def running_sum(incs):
     """Series that starts at zero and has the given increments (length len(incs)+1)."""
-    out = np.zeros(len(incs) + 1)
-    out[1:] = np.cumsum(f64(incs))
+    incs = f64(incs)
+    out = np.zeros(len(incs) + 1, dtype=incs.dtype)
+    out[1:] = np.cumsum(incs)
     return out
 
 
@@ -86,6 +99,32 @@ def increment_tolerance(series, integrand, dt, eps, k=32.0):
     return k * eps * (max(smax, rsum) + abs(float(dt)) * ymax) + 4.0 * tiny
 
 
+def increment_check(series, integrand, dt, rule, eps, k=32.0):
+    """Increment identity with a LOCAL allowance. s[i] = fl(s[i-1] + inc_i): the difference s[i]-s[i-1] deviates from
+    the exact increment by the rounding of that one addition (<= eps/2*|s[i]|) plus the roundings inside the
+    increment (a few eps of dt*(|y[i]|+|y[i-1]|)); the magnitudes are taken from the oracle's own running sum, so a
+    spike elsewhere in the record does not widen the allowance at quiet samples. A second-order drift term covers the
+    difference between the oracle's partial sums and the ones under test; an absolute floor covers gradual underflow.
+    Returns (ok, index of the worst excess, defect there, allowance there)."""
+    s = f64(series)
+    y = f64(integrand)
+    inc = increments(y, dt, rule)
+    if len(s) - 1 != len(inc):
+        return False, None, float('inf'), 0.0
+    if len(inc) == 0:
+        return True, None, 0.0, 0.0
+    ref = running_sum(inc)
+    parts = abs(float(dt)) * (np.abs(y[1:]) + np.abs(y[:-1]))
+    n = len(s)
+    glob = float(np.max(np.abs(ref))) + float(np.max(parts))
+    tol = k * eps * (np.abs(ref[1:]) + np.abs(ref[:-1]) + parts) + k * n * eps * eps * glob + underflow_floor(eps)
+    with np.errstate(invalid='ignore', over='ignore'):
+        err = np.abs(np.diff(s) - inc)
+    err = np.where(np.isnan(err), np.inf, err)
+    i = int(np.argmax(err - tol))
+    return bool(err[i] <= tol[i]), i + 1, float(err[i]), float(tol[i])
+
+
 def closed_form_linear(a0, s, dt, n):
     """Samples t=i*dt of what the increment identity implies for a(t)=a0+s*t:
     v = a0 t + s t^2/2 (trapezoid exact for a linear integrand),
@@ -123,6 +162,6 @@ def running_sum_tolerances(eps, n, dt, amax, vmax, dmax, k=4.0):
     n additions each rounded relative to the partial sum (<= n*eps*max|v|) plus the roundings of the terms
     (<= eps*n*dt*max|a|); the error of v enters d through n further panels of width dt."""
     dt = abs(float(dt))
-    tv = k * eps * n * (vmax + dt * amax)
-    td = k * eps * n * (dmax + dt * vmax) + n * dt * tv
+    tv = k * eps * n * (vmax + dt * amax) + underflow_floor(eps, n)
+    td = k * eps * n * (dmax + dt * vmax) + n * dt * tv + underflow_floor(eps, n)
     return tv, td
